@@ -341,28 +341,56 @@ fn exec_op(op: &Op, pool: &BTreeMap<String, String>, doc: &HashMap<Cat, Vec<Stri
             );
             let mut out = vec![];
             let flat = maps.flat_cat(cat);
+            // group the tree's files by bare name: findings are keyed by the bare name, so files that
+            // share one are observed together, as a multiset of line sets
+            let mut by_name: BTreeMap<String, Vec<&String>> = BTreeMap::new();
             for (path, name) in tree {
+                by_name.entry(base_name(path).to_string()).or_default().push(name);
+            }
+            for (bare, members) in &by_name {
                 for l in pats {
-                    let lines = if r.is_err() {
-                        None
+                    let es: Vec<&crate::pats::Entry> = flat
+                        .iter()
+                        .filter(|e| e.pat == *l && e.file == *bare)
+                        .collect();
+                    if members.len() == 1 {
+                        let lines = if r.is_err() {
+                            None
+                        } else {
+                            match es.len() {
+                                0 => Some(vec![]),
+                                1 => Some(es[0].lines.clone()),
+                                _ => Some(vec![-1]), // duplicated entry: not a verdict the baseline can have
+                            }
+                        };
+                        out.push((members[0].clone(), l.clone(), lines, how.clone()));
                     } else {
-                        // entries attributable to this file (names are unique in the tree)
-                        let es: Vec<&crate::pats::Entry> = flat
-                            .iter()
-                            .filter(|e| e.pat == *l && e.file == base_name(path))
-                            .collect();
-                        match es.len() {
-                            0 => Some(vec![]),
-                            1 => Some(es[0].lines.clone()),
-                            _ => Some(vec![-1]), // duplicated entry: not a verdict the baseline can have
-                        }
-                    };
-                    out.push((name.clone(), l.clone(), lines, how.clone()));
+                        // several files share the bare name: the multiset of their non-empty verdicts
+                        // must be what the directory result lists under that name
+                        let mut got: Vec<Vec<i32>> = es.iter().map(|e| e.lines.clone()).collect();
+                        got.sort();
+                        out.push((
+                            format!("{{{}}}", members.iter().map(|m| m.as_str()).collect::<Vec<_>>().join("+")),
+                            l.clone(),
+                            if r.is_err() { None } else { Some(encode_multiset(&got)) },
+                            format!("{} [files sharing the name {}]", how, bare),
+                        ));
+                    }
                 }
             }
             out
         }
     }
+}
+
+/// A multiset of line sets flattened into one vector (sets separated by -7).
+pub fn encode_multiset(sets: &[Vec<i32>]) -> Vec<i32> {
+    let mut v = vec![];
+    for s in sets {
+        v.extend(s.iter().copied());
+        v.push(-7);
+    }
+    v
 }
 
 // ---- fine-grained interleaving: the baton changes hands at yield points inside library calls
@@ -734,9 +762,32 @@ pub fn exec_chain(chain: &Chain, base: &Baseline, doc: &HashMap<Cat, Vec<String>
         for o in &obs {
             r.observations += 1;
             r.trace = mix(r.trace ^ hash_str(92, &format!("{}|{}|{:?}", o.text, o.pat, o.lines)));
-            let want = match base.get(&(o.text.clone(), o.pat.clone())) {
-                Some(w) => w,
-                None => continue,
+            let grouped: Vec<i32>;
+            let want: &Vec<i32> = if o.text.starts_with('{') {
+                // files sharing a bare name: expected = sorted multiset of their non-empty baselines
+                let mut sets: Vec<Vec<i32>> = vec![];
+                let mut known = true;
+                for m in o.text.trim_matches(|c| c == '{' || c == '}').split('+') {
+                    match base.get(&(m.to_string(), o.pat.clone())) {
+                        Some(w) => {
+                            if !w.is_empty() {
+                                sets.push(w.clone());
+                            }
+                        }
+                        None => known = false,
+                    }
+                }
+                if !known {
+                    continue;
+                }
+                sets.sort();
+                grouped = encode_multiset(&sets);
+                &grouped
+            } else {
+                match base.get(&(o.text.clone(), o.pat.clone())) {
+                    Some(w) => w,
+                    None => continue,
+                }
             };
             if o.lines.as_ref() != Some(want) && r.violation.is_none() {
                 r.violation = Some((
@@ -800,6 +851,7 @@ fn gen_op_dir(rng: &mut Rng, names: &[String], focus: &[String]) -> Op {
         let cat = *rng.pick(&CATS);
         let pats = gen::gen_pats(rng, cat);
         let n = rng.range(1, 5);
+        let alias = rng.chance(1, 3);
         let mut tree: Vec<(String, String)> = vec![];
         let dirs = ["/d", "/d/sub", "/d/sub/deep", "/d/lib", "/d/z"];
         for _ in 0..n {
@@ -808,7 +860,13 @@ fn gen_op_dir(rng: &mut Rng, names: &[String], focus: &[String]) -> Op {
                 continue;
             }
             let dir = rng.pick(&dirs);
-            tree.push((format!("{}/{}", dir, name), name));
+            // sometimes the file carries a name that other files of the tree carry too
+            let shown = if alias { "Token.sol".to_string() } else { name.clone() };
+            let path = format!("{}/{}", dir, shown);
+            if tree.iter().any(|(p, _)| *p == path) {
+                continue;
+            }
+            tree.push((path, name));
         }
         let mut w = World::new("/d");
         for (p, _) in &tree {
